@@ -583,3 +583,63 @@ Example C05_example_hanging_and_failing_graffiti :
   /\ (t_times fail = [0; 3000; 3000; 3000] /\ t_live fail = [true; true; true; true]
       /\ In (EProposal 100 55 0 90) (o_events (t_res fail)) /\ is_some (o_submit (t_res fail)) = true /\ t_ret fail = 3000).
 Proof. vm_compute. intuition. Qed.
+
+(* ------------------------------------------------------------------------------------------- *)
+(* The bytes of the graffiti (obtainGraffiti): a text of any length, with or without the "{{CLIENT}}"
+   placeholder, a proposal provider that is or is not a NodeClientProvider, a node whose client string
+   is anything at all (none, empty, without a '/', longer than the graffiti, the placeholder itself). *)
+From Verif Require Import Proofs.C05_Graffiti.
+
+(* The only failure of the graffiti lookup is the graffiti provider's own: whatever the node says its
+   client is -- or fails to say -- the lookup has a value, the text with every placeholder replaced by
+   the whole client string (left as it is when the node cannot be asked or fails), cut to 32 bytes. *)
+Theorem C05_any_client_string_is_a_graffiti :
+  forall text nc,
+    resolve_graffiti (GSBytes text nc) = GOk (graffiti_n (client_text text nc))
+    /\ (forall s, resolve_graffiti s = GErr -> s = GSErr)
+    /\ ((nc = NCNone \/ nc = NCErr) -> client_text text nc = text)
+    /\ (contains_b placeholder text = false -> client_text text nc = text /\ node_client_asked (GSBytes text nc) = false)
+    /\ (forall client, contains_b placeholder text = false -> replace_all placeholder client text = text).
+Proof.
+  intros text nc. split; [apply resolve_bytes_value|]. split; [exact resolve_err_only_provider|].
+  split; [apply client_text_unavailable|]. split.
+  - intro H. split; [apply client_text_absent; exact H|]. cbn. destruct nc; auto.
+  - intros client H. apply replace_absent. exact H.
+Qed.
+Print Assumptions C05_any_client_string_is_a_graffiti.
+
+(* ... it always is 32 bytes' worth, however long the text and the client string are *)
+Theorem C05_graffiti_fits_32_bytes :
+  forall bs, Forall (fun b => b < 256) bs -> graffiti_n bs < 256 ^ 32.
+Proof. exact graffiti_n_fits. Qed.
+Print Assumptions C05_graffiti_fits_32_bytes.
+
+(* ... and the proposal is made with it: for every configuration, environment, complete duty and every
+   source of graffiti, the beacon node is asked for the duty's slot with the graffiti the source resolves
+   to, and what is submitted for a local block is what is submitted with any other graffiti. *)
+Theorem C05_any_client_string_proposes :
+  forall c e s d acct,
+    d_randao d <> 0 -> d_account d = Some acct ->
+    In (EProposal (d_slot d) (d_randao d) (graffiti_value (with_source e s)) (c_boost c))
+       (o_events (propose c (with_source e s) d))
+    /\ (forall text nc, s = GSBytes text nc ->
+          graffiti_value (with_source e s) = graffiti_n (client_text text nc))
+    /\ (forall pr, e_proposal e = POk pr -> p_blinded pr = false ->
+          o_submit (propose c (with_source e s) d) = o_submit (propose c e d)).
+Proof. exact any_client_string_proposes. Qed.
+Print Assumptions C05_any_client_string_proposes.
+
+(* "vouch {{CLIENT}}" on a node that calls itself "Grandine 0.4.0" (no '/') is "vouch Grandine 0.4.0";
+   on a node with an empty client string "vouch "; with "{{CLIENT}}/{{CLIENT}}" and Lighthouse's string the
+   graffiti is the first 32 bytes; a node that answers "{{CLIENT}}" is not asked again. *)
+Example C05_example_client_graffiti :
+  let vouch := [118; 111; 117; 99; 104; 32] in
+  let grandine := [71; 114; 97; 110; 100; 105; 110; 101; 32; 48; 46; 52; 46; 48] in
+  client_text (vouch ++ placeholder) (NCOk grandine) = vouch ++ grandine
+  /\ client_text (vouch ++ placeholder) (NCOk []) = vouch
+  /\ client_text (vouch ++ placeholder) NCErr = vouch ++ placeholder
+  /\ client_text (placeholder ++ placeholder) (NCOk placeholder) = placeholder ++ placeholder
+  /\ pad32 (client_text (placeholder ++ [47] ++ placeholder) (NCOk (repeat 76 20))) = repeat 76 20 ++ [47] ++ repeat 76 11
+  /\ resolve_graffiti (GSBytes (repeat 0 31 ++ [9]) NCNone) = GOk 9
+  /\ node_client_asked (GSBytes (vouch ++ placeholder) (NCOk [])) = true.
+Proof. vm_compute. repeat split; reflexivity. Qed.
